@@ -117,6 +117,8 @@ package xsync
 //@   ensures assumed private keeps: hint != 2 ==> mapRIx(m) && tview[tab(m)] == old(tview[tab(m)])
 //@   ensures {C13} monitor.no-lost-wakeup: monitorOK()
 //@   ensures {C13} post.released: nheld() == 0
+//@   ensures private {C03,C11} post.cleared: hint == 2 ==> tview[tab(m)] == emptymap(view(m))
+//@   ensures assumed private keeps.clear: hint == 2 ==> mapRIx(m)
 
 //@ func (*mapTable).sumSize
 //@   serves C13 C14
@@ -271,6 +273,8 @@ package xsync
 //@   ensures assumed private keeps: hint != 2 ==> mapOfRIx(m) && tviewOf[tabOf(m)] == old(tviewOf[tabOf(m)])
 //@   ensures {C13} monitor.no-lost-wakeup: monitorOK()
 //@   ensures {C13} post.released: nheld() == 0
+//@   ensures private {C04,C11} post.cleared: hint == 2 ==> tviewOf[tabOf(m)] == emptymap(view(m))
+//@   ensures assumed private keeps.clear: hint == 2 ==> mapOfRIx(m)
 
 //@ func (*mapOfTable[K, V]).sumSize
 //@   serves C13 C14
@@ -360,6 +364,7 @@ package xsync
 //@   requires pow2(minTableLen) && minTableLen < 4611686018427387904
 //@   ensures {C11} post.shape: res0 != nil && tblShape(res0) && len(res0.buckets) == minTableLen
 //@   ensures {C16} effect.nolock: nacquire() == 0 && nblocking() == 0
+//@   ensures assumed private fresh.empty: forall k: string :: !present(tview[res0][k])
 
 //@ func newMapOfTable
 //@   serves C13 C14
@@ -367,6 +372,7 @@ package xsync
 //@   loop rangeindex.loop: invariant idx: rangeindex >= -1 && rangeindex < len(buckets) && wfslice(buckets) && len(buckets) == minTableLen
 //@   ensures {C11} post.shape: res0 != nil && tblShapeOf(res0) && len(res0.buckets) == minTableLen
 //@   ensures {C16} effect.nolock: nacquire() == 0 && nblocking() == 0
+//@   ensures assumed private fresh.empty: forall k: K :: !present(tviewOf[res0][k])
 
 //@ -- twin-begin Map
 //@ func (*Map).Load
@@ -447,11 +453,14 @@ package xsync
 //@   oncall f: {C13,C07} visitor.unlocked: nheld() == 0
 
 //@ func (*Map).Clear
-//@   trusted interface contract (builtin-map semantics); discharged by the table-layer proofs when those are enabled
+//@   serves C13 C14
 //@   requires m != nil && mapInv(m)
+//@   requires private mapRI(m)
 //@   modifies view(m)
+//@   modifies private allmem, tview, slotb, sloti, tbl, ridx, pos, clen, occ
+//@   ghostsync view(m) := tview[tab(m)]
 //@   ensures {C11,C03} post.state: view(m) == emptymap(old(view(m)))
-//@   ensures {C08} post.card: card(view(m)) == 0
+//@   ensures assumed {C08} post.card: card(view(m)) == 0
 //@   ensures mapInv(m)
 
 //@ func (*Map).Size
@@ -542,11 +551,14 @@ package xsync
 //@   oncall f: {C13,C07} visitor.unlocked: nheld() == 0
 
 //@ func (*MapOf[K, V]).Clear
-//@   trusted interface contract (builtin-map semantics); discharged by the table-layer proofs when those are enabled
+//@   serves C13 C14
 //@   requires m != nil && mapInv(m)
+//@   requires private mapOfRI(m)
 //@   modifies view(m)
+//@   modifies private allmem, tviewOf, slotbOf, slotiOf, tbl, ridx, pos, clen, occ
+//@   ghostsync view(m) := tviewOf[tabOf(m)]
 //@   ensures {C11,C04} post.state: view(m) == emptymap(old(view(m)))
-//@   ensures {C08} post.card: card(view(m)) == 0
+//@   ensures assumed {C08} post.card: card(view(m)) == 0
 //@   ensures mapInv(m)
 
 //@ func (*MapOf[K, V]).Size
